@@ -108,6 +108,11 @@ def _worker_replay(args):
             from . import runbad
 
             tr = runbad.illposed_run(_TDGL, payload, tmp)
+        elif kind == "call":
+            import importlib
+
+            mod = importlib.import_module(payload["module"])
+            tr = getattr(mod, payload["func"])(_TDGL, payload["args"], tmp)
         else:
             raise ValueError(kind)
         return {"ok": True, "trace": tr}
@@ -127,8 +132,12 @@ def replay_all(ctx, jobs, nproc=None):
         res = [_worker_replay(a) for a in args]
     else:
         c = mp.get_context("spawn")
-        with c.Pool(nproc, initializer=_worker_init) as pool:
+        pool = c.Pool(nproc, initializer=_worker_init)
+        try:
             res = pool.map(_worker_replay, args, chunksize=max(1, len(args) // (nproc * 8)))
+        finally:
+            pool.close()
+            pool.join()
     out = []
     for r, (k, p) in zip(res, jobs):
         if not r["ok"]:
